@@ -81,6 +81,9 @@ func (e *specEnv) eval(x ast.Expr) (sym.Expr, error) {
 		if e.locals[v.Name] || (v.Name == "acc" && e.params != nil) {
 			return sym.V(v.Name), nil
 		}
+		if e.locals != nil && (v.Name == "true" || v.Name == "false") {
+			return sym.V("#" + v.Name), nil
+		}
 		if strings.HasPrefix(v.Name, "calculatePeriods_") {
 			return sym.V("cfg:calculatePeriods()#" + v.Name[len("calculatePeriods_"):]), nil
 		}
